@@ -100,7 +100,8 @@ def resolve_shard(task):
     n = 0
     for cfg in cfgs:
         bind = build(cfg)
-        celbind = {k: to_cel(v) for k, v in bind.items()}
+        order = list(bind.items())[::-1] if style == "bindings-reversed" else list(bind.items())
+        celbind = {k: to_cel(v) for k, v in order}
         for package in (None, "p", "p.q"):
             for ref in REFS:
                 key = (package, ref, tuple(sorted(bind)) if style == "shadow" else None)
@@ -108,7 +109,7 @@ def resolve_shard(task):
                     ann = {k: ct.StringType for k in bind} if style == "shadow" else None
                     progs[key] = celrun.Prog(rk, ref, package=package, annotations=ann)
                 exp = names.resolve(bind, package, ref)
-                o = progs[key].eval(dict(celbind))
+                o = progs[key].eval(dict(celbind))       # dict() keeps the insertion order of celbind
                 n += 1
                 if exp is UNSPEC:
                     part.case(nontrivial=False)
@@ -212,6 +213,62 @@ def macro_shard(task):
     return part
 
 
+# ------------------------------------------------------------------- null-valued names inside macro bodies
+NULL = ("null_type", None)
+
+
+def null_programs():
+    """(text, bindings-spec, declared-names, expected canonical value): a name bound to null (an outer binding or an
+    iteration variable over a list containing null) referenced at macro depth 0..3, declared or not."""
+    out = []
+    nest = ["z", "[1].map(x, z)", "[1].map(x, [2].map(y, z))", "[1].map(x, [2].map(y, [3].map(x, z)))"]
+    exp = [NULL, ("list", (NULL,)), ("list", (("list", (NULL,)),)), ("list", (("list", (("list", (NULL,)),)),))]
+    for txt, e in zip(nest, exp):
+        out.append((txt, {"z": None}, e))
+        out.append((txt.replace("z)", "z == null)") if txt != "z" else "z == null", {"z": None}, _map_leaf(e, ("bool", True))))
+    for m, e in (("exists", ("bool", True)), ("all", ("bool", True)), ("exists_one", ("bool", True))):
+        out.append((f"[1].{m}(x, z == null)", {"z": None}, e))
+        out.append((f"[1].{m}(x, [2].{m}(y, z == null))", {"z": None}, e))
+    out.append(("[1, 2].filter(x, z == null)", {"z": None}, ("list", (("int", 1), ("int", 2)))))
+    out.append(("[1].map(x, z == null ? 1 : 2)", {"z": None}, ("list", (("int", 1),))))
+    # iteration variable bound to null, referenced one and two macros deeper
+    out.append(("[null].map(w, w)", {}, ("list", (NULL,))))
+    out.append(("[null].map(w, [1].map(y, w))", {}, ("list", (("list", (NULL,)),))))
+    out.append(("[null].map(w, [1].map(y, [2].map(x, w)))", {}, ("list", (("list", (("list", (NULL,)),)),))))
+    out.append(("[null, null].map(w, [1].map(y, w == null))", {}, ("list", (("list", (("bool", True),)), ("list", (("bool", True),))))))
+    out.append(("[null].map(w, [1].exists(y, w == null) ? 1 : 2)", {}, ("list", (("int", 1),))))
+    return out
+
+
+def _map_leaf(e, leaf):
+    return leaf if e == NULL else ("list", tuple(_map_leaf(x, leaf) for x in e[1]))
+
+
+NULL_DECLS = (None, "MapType", "IntType", "StringType")
+
+
+def null_shard(task):
+    rk, = task
+    import celpy.celtypes as ct
+    part = runner.Part()
+    n = 0
+    for txt, bind, want in null_programs():
+        for decl in NULL_DECLS:
+            ann = None if decl is None else {k: getattr(ct, decl) for k in ("z", "w")}
+            o = celrun.Prog(rk, txt, annotations=ann).eval(dict(bind))
+            part.case()
+            n += 1
+            part.outcome("null-scope:" + want[0])
+            got = (o[1], o[2]) if o[0] == "V" else (ERR if o[0] == "E" else ("X",) + tuple(o[1:]))
+            if got != want:
+                depth = txt.count(".map(") + txt.count(".filter(") + txt.count(".exists") + txt.count(".all(")
+                part.violation("wrong-binding", f"{rk}:null-valued-name-in-macro-body:{'declared' if decl else 'undeclared'}:{'iteration-variable' if not bind else 'outer-binding'}",
+                               {"runner": rk, "null_expr": txt, "bindings": bind, "declared_as": decl, "expected": repr(want)},
+                               f"runner {rk}: {txt!r} with bindings {bind} (names declared as {decl}): expected {want}, got {outcome.short(o)} (macro depth {depth})")
+    part.space(f"null-in-scope:{rk}", n, n)
+    return part
+
+
 def run(ctx):
     names.selftest()
     ncfg = count_configs(ctx.tier)
@@ -220,16 +277,17 @@ def run(ctx):
         raise runner.HarnessError(f"configuration generator yields {real}, closed form says {ncfg}")
     mp = macro_programs(3)
     for rk in ("I", "C"):
-        for style in ("bindings", "shadow"):
+        for style in ("bindings", "bindings-reversed", "shadow"):
             ctx.run_shards(resolve_shard, [(rk, lo, hi, ctx.tier, style) for lo, hi in runner.shards(ncfg, 32)])
             ctx.part.spaces[f"resolution:{style}:{rk}"]["cardinality"] = ncfg
         ctx.run_shards(macro_shard, [(rk, lo, hi, ctx.tier) for lo, hi in runner.shards(len(mp), 16)])
         ctx.part.spaces[f"macro-nestings:{rk}"]["cardinality"] = len(mp)
+        ctx.run_shards(null_shard, [(rk,)])
     ctx.part.sample({"bindings": build((1, 2, 0, 0, 1, 0, 0, 0, 0)), "package": "p", "references": REFS})
     ctx.part.sample({"macro_programs": [mp[i][0] for i in (0, len(mp) // 2, len(mp) - 1)], "outer_bindings": OUTER})
     ctx.rule = ("(1) every assignment of {absent, scalar, map with the remaining fields} to {a, a.b, a.b.c} x {root, p" + (", p.q} (all 3^9)" if ctx.thorough else "} (3^6) plus every p.q configuration with <= 3 bound names") +
-                " x package {none, p, p.q} x 5 references, as plain bindings and as bindings shadowing declarations of another type; (2) every macro nesting of depth <= 3 with variables from {x, y} "
-                "(colliding and distinct) and bodies over {x, y, z}, also using the variable name after the macro; cases the resolution model leaves UNSPEC (reference naming a namespace; level mentioning `a` only through non-prefix names) are counted, not compared")
+                " x package {none, p, p.q} x 5 references, as plain bindings (mapping listed shortest-name-first and in the reverse order) and as bindings shadowing declarations of another type; (2) every macro nesting of depth <= 3 with variables from {x, y} "
+                "(colliding and distinct) and bodies over {x, y, z}, also using the variable name after the macro; (3) a name bound to null (outer binding or iteration variable), declared as one of 3 types or undeclared, referenced at macro depth 0..3; cases the resolution model leaves UNSPEC (reference naming a namespace; level mentioning `a` only through non-prefix names) are counted, not compared")
     ctx.assumptions = ["dotted paths of at most three components over one root name; integer leaves", "declared-but-unbound names are not judged (the statement does not say what they denote)"]
 
 
@@ -239,12 +297,20 @@ def replay(w):
         import celpy.celtypes as ct
         bind = wit["bindings"]
         ann = {k: ct.StringType for k in bind} if wit["style"] == "shadow" else None
-        o = celrun.Prog(wit["runner"], wit["ref"], package=wit["package"], annotations=ann).eval({k: to_cel(v) for k, v in bind.items()})
+        order = list(bind.items())[::-1] if wit["style"] == "bindings-reversed" else list(bind.items())
+        o = celrun.Prog(wit["runner"], wit["ref"], package=wit["package"], annotations=ann).eval({k: to_cel(v) for k, v in order})
         exp = names.resolve(bind, wit["package"], wit["ref"])
         print("bindings", bind, "package", wit["package"], "ref", wit["ref"], "->", outcome.short(o), "expected", exp)
         want = ERR if exp == ERR else canon(exp)
         got = ERR if o[0] == "E" else ((o[1], o[2]) if o[0] == "V" else None)
         bad = exp is not UNSPEC and got != want
+    elif "null_expr" in wit:
+        import celpy.celtypes as ct
+        ann = None if wit["declared_as"] is None else {k: getattr(ct, wit["declared_as"]) for k in ("z", "w")}
+        o = celrun.Prog(wit["runner"], wit["null_expr"], annotations=ann).eval(dict(wit["bindings"]))
+        print(wit["null_expr"], "->", outcome.short(o), "expected", wit["expected"])
+        got = (o[1], o[2]) if o[0] == "V" else None
+        bad = repr(got) != wit["expected"]
     else:
         import celpy.celtypes as ct
         o = celrun.evaluate(wit["runner"], wit["expr"], {k: ct.IntType(v) for k, v in OUTER.items()})
